@@ -31,6 +31,9 @@ func (Env) Twice(i int) int                    { return 2 * i }
 func (Env) Join(a, b string) string            { return a + "/" + b }
 func (Env) Fast(xs ...interface{}) interface{} { return len(xs) }
 
+// Keep returns its argument list itself: a result that aliases whatever buffer the call was given.
+func (Env) Keep(xs ...interface{}) interface{} { return xs }
+
 func EnvA() Env {
 	return Env{S: "aXb", Pat: "^a", I: 2, A: []int{1, 2, 3, 4}, M: map[string]int{"a": 1}, O: &Obj{N: 3, Name: "o"}, OS: []*Obj{{N: 1}, {N: 2}}}
 }
@@ -50,6 +53,8 @@ var Sources = []string{
 	`M["a"] + O.N + len(Join(S, "x"))`,                        // map, property, string constant
 	`Fast(I, S, nil) == 3 and not (S contains "q")`,           // fast call
 	`{a: I, b: [S, Pat]}.b[1] + S[1:2]`,                       // map/array literals, slicing
+	`Keep(I, S, O.N)`,                                         // fast call whose result aliases its argument list
+	`[len(5..1), I, len(3..2)]`,                               // folded empty ranges
 }
 
 // Options are shared by concurrent Compile calls.
